@@ -197,6 +197,9 @@ ctor_checks = Unit(
         R(r"m_impl_ptr = std::make_shared<impl_type>\(grid, ([^;]*)\);",
           r"*impl_single_flow = (\1); *m_writeable = 1; /* default member initialiser m_writeable = true */", 1),
         V(r"m_operators\.(graph_updated|out_flowdir|elevation_updated|all_single_flow)\(\)", r"ops->m_\1"),
+        # a call of the graph's own single_flow() member: judged by that member's contract (unit graph_single_flow, group opseq.single_flow),
+        # whose precondition is the class invariant "implementation flag == all-single" -- not yet established inside the constructor
+        V(r"(?<![\w.>:])single_flow\(\)", "ctor_single_flow(ops, *impl_single_flow)"),
         V(r"flow_direction::(\w+)", r"FD_\1"),
         R(r"throw std::invalid_argument\(\s*\"[^;]*\);", "{ FSL_THROW(3); return; }", 2, re.S),
         # default base levels: decided separately (C17.default_base_levels); snapshot pre-allocation is glue
@@ -414,10 +417,18 @@ void h_flag_table(void)
 """
     gs.append(Group(name="opseq.flag_table", units=[], harness=table_h, entry="h_flag_table", timeout=60, min_obligations=5,
                     clause="declared static flags of the five shipped operators (read from the class definitions)"))
-    ctor_checks.pre = pre
+    ctor_checks.pre = pre + r"""
+/* flow_graph::single_flow() as seen from a caller: the contract proved by group opseq.single_flow */
+_Bool ctor_single_flow(const struct opseq *ops, _Bool impl_single_flow)
+__CPROVER_requires(impl_single_flow == ops->m_all_single_flow)
+__CPROVER_assigns()
+__CPROVER_ensures(__CPROVER_return_value == (ops->m_out_flowdir == FD_single))
+;
+"""
     gs.append(Group(name="opseq.ctor", units=[ctor_checks],
-                    harness=H("flow_graph_ctor", "ops, a, b, c", "const struct opseq *ops; _Bool *a, *b, *c;"),
-                    entry="h_flow_graph_ctor", enforce="flow_graph_ctor", timeout=60, min_obligations=5,
+                    harness=H("flow_graph_ctor", "ops, a, b, c", "const struct opseq *ops; _Bool *a, *b, *c;").replace(
+                        '    __CPROVER_assert(0, "canary', '    if (fsl_thrown == 77) { ctor_single_flow(ops, 0); } /* keep-alive, unreachable */\n    __CPROVER_assert(0, "canary'),
+                    entry="h_flow_graph_ctor", enforce="flow_graph_ctor", replace=["ctor_single_flow"], timeout=60, min_obligations=5,
                     clause="construction refused iff no operator updates the graph or no direction is defined; implementation single-flow "
                            "flag = all-single; elevation copy allocated iff some operator edits elevation"))
     gs.append(Group(name="opseq.impl_width", units=[impl_width],
